@@ -260,6 +260,79 @@ Definition wiring_ok (c : list fe_child * list rprim) : bool :=
 
 
 # ------------------------------------------------------------------------------------------------
+# feConvolveMatrix shape cases
+# ------------------------------------------------------------------------------------------------
+def gen_kernel_case(rng):
+    def num():
+        return rng.choice([1, 2, 3, 3, 4, 5, 0, -1, 2.7, 7])
+    order = None
+    r = rng.below(4)
+    if r == 1:
+        order = (num(), None)
+    elif r >= 2:
+        order = (num(), num())
+    ox, oy = 3, 3
+    if order is not None:
+        x = int(order[0])
+        y = int(order[1]) if order[1] is not None else x
+        if x > 0 and y > 0:
+            ox, oy = x, y
+    r = rng.below(6)
+    mlen = None if r == 0 else (ox * oy if r < 4 else rng.choice([0, 1, ox * oy + 1, 9, 4]))
+    div = rng.choice([None, None, 1, 2.5, 0, -3])
+    tx = rng.choice([None, None, 0, 1, ox - 1, ox, -1, 100, 1.9])
+    ty = rng.choice([None, None, 0, 1, oy - 1, oy, -1])
+    return dict(order=order, mlen=mlen, div=div, tx=tx, ty=ty)
+
+
+def kernel_doc(c):
+    a = ''
+    if c['order'] is not None:
+        a += ' order="%s"' % ' '.join(str(v) for v in c['order'] if v is not None)
+    if c['mlen'] is not None:
+        # entries sum to a non-zero value so that the implicit divisor is not replaced
+        a += ' kernelMatrix="%s"' % ' '.join(['1'] * c['mlen'])
+    if c['div'] is not None:
+        a += ' divisor="%s"' % c['div']
+    if c['tx'] is not None:
+        a += ' targetX="%s"' % c['tx']
+    if c['ty'] is not None:
+        a += ' targetY="%s"' % c['ty']
+    return ('<svg %s width="100" height="100"><filter id="f" filterUnits="userSpaceOnUse" x="0" y="0" width="100" height="100">'
+            '<feConvolveMatrix%s/></filter><rect width="50" height="50" filter="url(#f)"/></svg>' % (NS, a))
+
+
+def coq_kernel_case(c, tree):
+    def oz(v):
+        return 'None' if v is None else '(Some (%d)%%Z)' % int(v)
+    order = 'None' if c['order'] is None else '(Some (%s, %s))' % (oz(c['order'][0]), oz(c['order'][1]))
+    dz = 'true' if (c['div'] is not None and c['div'] == 0) else 'false'
+    k = tree['filters'][0]['primitives'][0]['kind'] if tree['filters'] else {'k': 'none'}
+    if k['k'] == 'ConvolveMatrix':
+        obs = '(Some {| k_cols := %d; k_rows := %d; k_tx := %d; k_ty := %d; k_len := %d |})' % (
+            k['cols'], k['rows'], k['target_x'], k['target_y'], len(k['data']))
+    else:
+        obs = 'None'
+    return '(%s, %s, %s, %s, %s, %s)' % (order, oz(c['mlen']), dz, oz(c['tx']), oz(c['ty']), obs)
+
+
+KERNEL_DEFS = """
+Local Open Scope Z_scope.
+Definition kernel_eqb (a b : kernel) : bool :=
+  (k_cols a =? k_cols b) && (k_rows a =? k_rows b) && (k_tx a =? k_tx b) && (k_ty a =? k_ty b) && (k_len a =? k_len b).
+Definition kernel_case_ok (c : option (option Z * option Z) * option Z * bool * option Z * option Z * option kernel) : bool :=
+  match c with
+  | (ord, mlen, dz, tx, ty, obs) =>
+      match convolve_kernel ord mlen dz tx ty, obs with
+      | Some k, Some k' => kernel_eqb k k' && kernel_ok k'
+      | None, None => true
+      | _, _ => false
+      end
+  end.
+"""
+
+
+# ------------------------------------------------------------------------------------------------
 # documents whose element ids look like generated ids
 # ------------------------------------------------------------------------------------------------
 def gen_ids_doc(rng):
@@ -281,6 +354,7 @@ def run(ctx):
     broken = ctx.translate()
     res = ctx.coq_props()
     proof_ok = res['ok'] and not broken
+    ctx.coq_build(['Model/Corr.v', 'Proofs/Collect.v', 'Model/Filters.v'])      # what the correspondence evaluations import
     if not quick and hasattr(ctx, 'coqchk') and res['ok']:
         if not ctx.coqchk():
             proof_ok = False
@@ -302,7 +376,8 @@ def run(ctx):
     docs = ['@' + f for f in wit] + ['@' + f for f in corpus] + gen_docs
     labels = [os.path.relpath(f, vlib.VERIF) for f in wit] + [os.path.relpath(f, vlib.CORPUS) for f in corpus] + \
              ['generated#%d' % i for i in range(ngen)]
-    is_wit = [True] * len(wit) + [False] * (len(corpus) + ngen)
+    # witnesses of the defects fixed for this property family must pass outright; other witnesses are ordinary inputs
+    is_wit = [os.path.basename(f) in ('F08.svg', 'F09.svg', 'F13.svg') for f in wit] + [False] * (len(corpus) + ngen)
     outs = ctx.rvh_batch(binp, 'dump', ["-\t" + d for d in docs])
     idouts = ctx.rvh_batch(binp, 'c05-docids', docs)
     nbouts = ctx.rvh_batch(binp, 'c05-nbi', ["-\t" + d for d in docs])
@@ -498,6 +573,42 @@ def run(ctx):
                                                for p in (t['filters'][0]['primitives'] if t['filters'] else [])]))
             if len(ctx.violations) > 6:
                 break
+
+    # ------------------------------------------------------------------ K: kernel shape
+    nk = 300 if quick else 3000
+    kcases = [gen_kernel_case(rng) for _ in range(nk)]
+    kdocs = [kernel_doc(c) for c in kcases]
+    kouts = ctx.rvh_batch(binp, 'dump', ["-\t" + d for d in kdocs])
+    kitems = []
+    kmap = []
+    kept = 0
+    for k, (c, d, o) in enumerate(zip(kcases, kdocs, kouts)):
+        t = jload(o)
+        if 'root' not in t:
+            ctx.violation("kernel document failed to parse: %s" % str(t)[:200], dict(doc=d, result=t))
+            continue
+        kind = t['filters'][0]['primitives'][0]['kind']['k'] if t['filters'] else 'none'
+        kept += 1 if kind == 'ConvolveMatrix' else 0
+        ctx.note_case('kernel/' + d, nontrivial=(kind == 'ConvolveMatrix'))
+        kitems.append(coq_kernel_case(c, t))
+        kmap.append(k)
+    ctx.cov['kernel_cases'] = len(kitems)
+    ctx.cov['kernel_cases_kept'] = kept
+    if kitems:
+        body = (PRELUDE + KERNEL_DEFS + "Definition cases := [\n%s\n].\nEval vm_compute in (bad_indices kernel_case_ok cases).\n"
+                % ";\n".join(kitems))
+        rc, out = ctx.coq_eval('k_kernel', body, ['Model.Filters', 'Model.Corr'])
+        bl = ctx.parse_N_list(out) if rc == 0 else None
+        if bl is None:
+            ctx.log("model evaluation (kernel) failed:\n" + out[-1500:])
+            ctx.violation("the kernel correspondence could not be evaluated", dict(op='kernel'), found_input=False)
+        for b in (bl or [])[:3]:
+            k = kmap[b]
+            t = jload(kouts[k])
+            ctx.violation("feConvolveMatrix: Model/Filters.v convolve_kernel and the implementation disagree on whether the kernel is kept "
+                          "or on its shape, or a kept kernel has a target outside / a wrong number of values",
+                          dict(doc=kdocs[k], op='dump', case=kcases[k],
+                               implementation=t['filters'][0]['primitives'][0]['kind'] if t['filters'] else None))
 
     # ------------------------------------------------------------------ proof broke: model-level search
     if not proof_ok and not ctx.violations:
